@@ -17,7 +17,7 @@ PROPS = {
         bounded_families=['state_ops', 'refsem'],
     ),
     'C08': dict(
-        bounded_families=['iter'],
+        bounded_families=['iter', 'refsem'],
         kani=True,
         level='proof',
         explanation=("Matches::next (find_iter) is verified by Verus to be exactly one step of the reference iteration model transcribed from the property "
@@ -30,7 +30,7 @@ PROPS = {
                      "T-strlen: a str is at most isize::MAX bytes", "next_utf8's contract (proved in U-UTF8)"],
     ),
     'C09': dict(
-        bounded_families=['iter', 'search'],
+        bounded_families=['iter', 'search', 'refsem'],
         level='proof',
         explanation=("CaptureMatches::next is verified to perform the SAME reference-model step as Matches::next on the span of group 0 (so captures_iter yields exactly the spans find_iter yields, "
                      "in the same order, including the skipped-empty-match flag and the Err history); Match::new builds the span it is given; captures_iter starts in the initial state."),
@@ -38,7 +38,7 @@ PROPS = {
         assumptions=[T_VSTD, T_ARITH, T_EXTRACT, "T-find / T-captures: captures_from_pos_with_option_flags is the same search as find_from_pos_with_option_flags and Captures::get(0) is its span"],
     ),
     'C10': dict(
-        bounded_families=['iter'],
+        bounded_families=['iter', 'refsem'],
         level='proof',
         explanation=("Split::next and SplitN::next are verified equal to one step of the reference split/splitn model over the find_iter model (piece = text between previous match end and next match start, "
                      "remainder exactly once, n = 0 yields nothing, the n-th item is the untouched remainder), with every slice proved in bounds and on character boundaries; split/splitn start in the initial state."),
@@ -183,7 +183,7 @@ PROPS = {
     ),
     'C11': dict(
         level='other',
-        bounded_families=['replace'],
+        bounded_families=['replace', 'expand'],
         explanation=("BOUNDED ONLY. try_replacen and the Replacer impls use iterator adapters (enumerate().peekable()), Cow and trait objects that are outside Verus' dialect, and Kani needs the whole regex engine for them; "
                      "no contract within reach can carry 'replaces exactly the first n matches'. The property is checked by the bounded family `replace` on the real crate: for every (pattern, text, backtrack limit, n, replacer) "
                      "of its corpus the result equals the text rebuilt from the real captures_iter sequence with the first n matches replaced, borrowed iff no match, template-without-$ / NoExpand / closure agree, "
@@ -194,7 +194,7 @@ PROPS = {
     'C12': dict(
         kani=True,
         level='other',
-        bounded_families=['expand'],
+        bounded_families=['expand', 'replace'],
         explanation=("BOUNDED, except for two callees that are under Verus contracts (Captures::get, parse_decimal). Expander::exec / parse_id are built on Chars::as_str, char_indices().peekable(), closures and full-Unicode char predicates: outside Verus' dialect, and intractable for Kani "
                      "(probed: char::is_alphanumeric pulls in the Unicode tables). The property is checked by the bounded family `expand`: every template up to length 6 over a 16-symbol alphabet (the property's, plus `-` and a non-ASCII numeric) "
                      "(exhaustive in the thorough tier; lengths <= 5 and part of 6 in the quick tier) x 4 captures setups (one with a group whose name is a number other than its index) x both expanders against an independent rendering of the documented syntax, plus the escape round trip and check's accept-only-if."),
